@@ -107,6 +107,8 @@ package resharing
 //@   requires [announced-key-kept] rsNew(round.ReSharingParameters) ==> (round.save.EDDSAPub != nil && wfPoint(round.save.EDDSAPub))
 //@   modifies *
 //@   ensures [C04.old-share-intact-before-the-final-round] shareIntact(round)
+//@   requires [flag-lists-are-separate] arr(round.oldOK) != arr(round.newOK)
+//@   ensures [C04,C05.no-acknowledgement-is-marked-before-it-arrives] result == nil ==> (forall k in 0..len(round.newOK) :: (round.newOK[k] ==> (rsNew(round.ReSharingParameters) && k == round.ReSharingParameters.Parameters.partyID.Index)))
 //@   site (*crypto.ECPoint).Equals#0 : [C04.the-summed-constant-commitment-is-compared-with-the-announced-public-key] $arg0 == Vc[0] && $arg1 == round.save.EDDSAPub
 //@   loop 0 invariant round.save.EDDSAPub != nil && wfPoint(round.save.EDDSAPub) && rsNew(round.ReSharingParameters) && 0 <= j && j <= len(vjc) && len(vjc) == rsOldN(round) && fresh(vjc) && newXi != nil && modQ != nil && val(modQ) == curveN(round.ReSharingParameters.Parameters.ec) && shareIntact(round)
 //@   loop 0 invariant forall k in 0..j :: rs4row(round, vjc[k])
